@@ -205,6 +205,9 @@ func (vc *VC) intBinop(st *State, op token.Token, x, y *Term, rt types.Type, pos
 		if n, ok := vc.litVal(x.S); ok {
 			return res(vc.andConst(y, n, rt))
 		}
+		if bits == 8 && !signed {
+			return res("(band8 " + x.S + " " + y.S + ")")
+		}
 		vc.note("bitwise & of two variables abstracted in int mode")
 		r := res("(band " + x.S + " " + y.S + ")")
 		vc.assume(vc.inRange(r.S, rt))
@@ -218,7 +221,12 @@ func (vc *VC) intBinop(st *State, op token.Token, x, y *Term, rt types.Type, pos
 			return res("(- " + x.S + " " + vc.andConst(x, n, rt) + ")")
 		}
 	case token.OR:
-		// x | c where c's bits are known to be clear in x cannot be decided here; abstract
+		if s, ok := vc.bitConst(x, y, bits, signed, func(v, p string) string { return "(ite (= (bitk " + v + " " + p + ") 0) " + p + " 0)" }); ok {
+			return res(s)
+		}
+		if bits == 8 && !signed {
+			return res("(bor8 " + x.S + " " + y.S + ")")
+		}
 		vc.note("bitwise | abstracted in int mode")
 		r := res("(bor " + x.S + " " + y.S + ")")
 		vc.assume(vc.inRange(r.S, rt))
@@ -227,6 +235,12 @@ func (vc *VC) intBinop(st *State, op token.Token, x, y *Term, rt types.Type, pos
 		}
 		return r
 	case token.XOR:
+		if s, ok := vc.bitConst(x, y, bits, signed, func(v, p string) string { return "(ite (= (bitk " + v + " " + p + ") 0) " + p + " (- " + p + "))" }); ok {
+			return res(s)
+		}
+		if bits == 8 && !signed {
+			return res("(bxor8 " + x.S + " " + y.S + ")")
+		}
 		vc.note("bitwise ^ abstracted in int mode")
 		r := res("(bxor " + x.S + " " + y.S + ")")
 		vc.assume(vc.inRange(r.S, rt))
@@ -234,6 +248,41 @@ func (vc *VC) intBinop(st *State, op token.Token, x, y *Term, rt types.Type, pos
 	}
 	unsup("int binop %s in int mode", op)
 	return nil
+}
+
+// bitConst: x op c for a non-negative literal c (either side) as the other
+// operand plus one exact per-bit correction term for every bit set in c.
+func (vc *VC) bitConst(x, y *Term, bits int, signed bool, term func(v, p string) string) (string, bool) {
+	v := x
+	c, ok := vc.litVal(y.S)
+	if !ok {
+		if c, ok = vc.litVal(x.S); !ok {
+			return "", false
+		}
+		v = y
+	}
+	lim := bits
+	if signed {
+		lim = bits - 1
+	}
+	if c.Sign() < 0 || c.BitLen() > lim {
+		return "", false
+	}
+	n := 0
+	s := "(+ " + v.S
+	for k := 0; k < c.BitLen(); k++ {
+		if c.Bit(k) == 1 {
+			s += " " + term(v.S, pow2big(k).String())
+			n++
+		}
+	}
+	if n == 0 {
+		return v.S, true
+	}
+	if n > 16 {
+		return "", false
+	}
+	return s + ")", true
 }
 
 // andConst: x & c for a constant c (int mode), exact for masks 2^k-1 and
